@@ -106,7 +106,15 @@ def judge(res, js, line, real, autopong, sent_pings=None):
     # short by a write fault or by the application's own close / session close)
     if sent_pings is not None:
         got = [p for _, p in all_pings(tk)]
-        app_closes = any(a and a[0] in ('close', 'session_close', 'abandon') for acts in js.get('reactions', {}).values() for a in acts)
+        # only calls that were really made count (the reaction at event index i runs iff at least i+1 events were yielded)
+        n_events = sum(1 for t in tk if t.startswith('E:'))
+        app_closes = any(a and a[0] in ('close', 'session_close', 'abandon') for k, acts in js.get('reactions', {}).items() if int(k) < n_events for a in acts)
+        hard_cut = any(a and a[0] in ('session_close', 'abandon') for k, acts in js.get('reactions', {}).items() if int(k) < n_events for a in acts)
+        if not hard_cut and not any(t.startswith('WF:') for t in tk) and any(t.startswith('E:ready') for t in tk) and (client_closed or app_closes):
+            # the application only called close(): the connection lives on until the server's Close, every Ping before it is still an event
+            allowed = [sent_pings, sent_pings[:-1]] if sent_pings and sent_pings[-1] == b'after-close' else [sent_pings]
+            if got not in allowed and not any(t.startswith('E:disconnected:close-timeout') for t in tk):
+                return fail('after the application\'s close() the Pings of the stream were not all delivered as events: %s of %s' % ([p.hex()[:12] for p in got], [p.hex()[:12] for p in sent_pings]))
         cut_short = any(t.startswith('WF:') for t in tk) or client_closed or app_closes or not any(t.startswith('E:ready') for t in tk)
         if got != sent_pings[:len(got)] or (len(got) < len(sent_pings) and not cut_short):
             return fail('Ping events %s do not match the Pings the server sent %s' % ([p.hex()[:12] for p in got], [p.hex()[:12] for p in sent_pings]))
